@@ -98,91 +98,329 @@ Qed.
 
 (** ** TXTPublic.ReadAt *)
 
-(** Positional-read contract of the TXT register file: never more bytes than the
-    buffer holds; the rest of the buffer is untouched; whatever is reported as read
-    starts at the address of the first register of the collection that contains
-    [off], and is a prefix of that register's value. *)
-Theorem txt_readat_positional : forall regs p off rd,
-  txt_readat regs p off = Ok rd ->
-  0 <= rd_n rd <= zlen p /\ zlen (rd_p rd) = zlen p /\
-  skipn (Z.to_nat (rd_n rd)) (rd_p rd) = skipn (Z.to_nat (rd_n rd)) p /\
-  (0 < rd_n rd -> exists r, txt_lookup regs off = Some r /\ g_off r = off /\
-       rd_n rd = Z.min (zlen p) (zlen (g_val r)) /\
-       firstn (Z.to_nat (rd_n rd)) (rd_p rd) = firstn (Z.to_nat (rd_n rd)) (g_val r)).
+Lemma nth_error_firstn_lt {A} (l : list A) : forall n i, (i < n)%nat -> nth_error (firstn n l) i = nth_error l i.
 Proof.
-  induction regs as [|r t IH]; intros p off rd E; cbn [txt_readat txt_lookup] in *.
-  - inversion E; subst. cbn [rd_n rd_p]. pose proof (zlen_nonneg p). repeat split; try lia.
-  - pose proof (zlen_nonneg p) as Lp.
-    destruct (g_off r <? 0); [inversion E; subst; cbn [rd_n rd_p]; repeat split; lia|].
-    destruct ((off <? g_off r) || (g_off r + g_bits r / 8 <=? off)); [apply IH; exact E|].
-    destruct (off =? g_off r) eqn:A; cbn [negb] in E; [|inversion E; subst; cbn [rd_n rd_p]; repeat split; lia].
-    apply Z.eqb_eq in A.
-    destruct (bwrite p 0 (g_val r)) as [[p' n] e] eqn:W. inversion E; subst rd. cbn [rd_n rd_p].
-    destruct (bwrite_spec p 0 (g_val r) p' n e (Z.le_refl 0) W) as (N0 & N1 & L & _ & S & F & Nb).
-    rewrite Z.sub_0_r in F, Nb. cbn [Z.to_nat skipn] in F.
-    split; [lia|]. split; [exact L|]. split; [exact S|].
-    intros Pn. exists r. split; [reflexivity|]. split; [symmetry; exact A|]. split; [|apply F; lia].
-    destruct (Z_le_gt_dec (zlen p) 0) as [Z0|Z0].
-    + rewrite bwrite_full in W by exact Z0. inversion W. lia.
-    + rewrite bwrite_room in W by lia. inversion W. lia.
+  induction l as [|a t IH]; intros n i H; [destruct n, i; reflexivity|].
+  destruct n as [|n]; [lia|]. destruct i as [|i]; [reflexivity|]. cbn [firstn nth_error]. apply IH. lia.
+Qed.
+Lemma nth_error_skipn_add {A} (l : list A) : forall n i, nth_error (skipn n l) i = nth_error l (n + i).
+Proof.
+  induction l as [|a t IH]; intros n i; [destruct n, i; reflexivity|].
+  destruct n as [|n]; [reflexivity|]. cbn [skipn Nat.add nth_error]. apply IH.
 Qed.
 
-(** a collection of TXT registers as the platform reports them: every register
-    inside the space, BitSize()/8 = the width of the value > 0, no two registers
-    claim the same address *)
-Definition reg_wf (r : reg) : Prop :=
-  0 <= g_off r /\ 0 < g_bits r / 8 /\ zlen (g_val r) = g_bits r / 8.
-Definition regs_apart (a b : reg) : Prop :=
-  g_off a + g_bits a / 8 <= g_off b \/ g_off b + g_bits b / 8 <= g_off a.
-Definition TxtWF (regs : list reg) : Prop :=
-  Forall reg_wf regs /\ ForallOrdPairs regs_apart regs.
+(** what a write leaves in the part of the buffer it covered *)
+Lemma bwrite_content p pos b p' pos' e : 0 <= pos <= zlen p -> bwrite p pos b = (p', pos', e) ->
+  forall i, pos <= i < pos' -> nth_error p' (Z.to_nat i) = nth_error b (Z.to_nat (i - pos)).
+Proof.
+  intros P W i Hi.
+  destruct (bwrite_spec p pos b p' pos' e (proj1 P) W) as (_ & _ & _ & _ & _ & Fw & _).
+  specialize (Fw (proj2 P)).
+  replace (Z.to_nat i) with (Z.to_nat pos + Z.to_nat (i - pos))%nat by lia.
+  rewrite <- nth_error_skipn_add.
+  rewrite <- (nth_error_firstn_lt (skipn (Z.to_nat pos) p') (Z.to_nat (pos' - pos))) by lia.
+  rewrite Fw. apply nth_error_firstn_lt. lia.
+Qed.
 
-Lemma txt_lookup_present regs r : TxtWF regs -> In r regs -> txt_lookup regs (g_off r) = Some r.
+(** the error class of a write: io.EOF iff there was no room at all; without
+    error the whole of [b] was written *)
+Lemma bwrite_err p pos b p' pos' e : 0 <= pos -> bwrite p pos b = (p', pos', e) ->
+  (zlen p <= pos -> e = 1) /\ (e = 0 -> pos < zlen p /\ pos' = pos + zlen b).
+Proof.
+  intros P W. pose proof (zlen_nonneg b) as Lb. destruct (Z_le_gt_dec (zlen p) pos) as [F|F].
+  - rewrite bwrite_full in W by exact F. inversion W; subst. split; [reflexivity | discriminate].
+  - rewrite bwrite_room in W by lia. inversion W; subst. split; [lia|].
+    destruct (Z.min (zlen p - pos) (zlen b) <? zlen b) eqn:E; [discriminate|]. apply Z.ltb_ge in E. lia.
+Qed.
+
+Lemma txt_register_at_lookup regs off r :
+  txt_register_at regs off = Some r <-> (txt_lookup regs off = Some r /\ g_off r = off).
+Proof.
+  induction regs as [|a t IH]; cbn [txt_register_at txt_lookup].
+  - split; [discriminate | intros (E & _); discriminate].
+  - destruct (g_off a <? 0); [split; [discriminate | intros (E & _); discriminate]|].
+    destruct ((off <? g_off a) || (g_off a + txt_width a <=? off)); [exact IH|].
+    destruct (off =? g_off a) eqn:A.
+    + apply Z.eqb_eq in A. split.
+      * intros E. inversion E as [E']. rewrite <- E'. split; [reflexivity | symmetry; exact A].
+      * intros (E & _). exact E.
+    + apply Z.eqb_neq in A. split; [discriminate|]. intros (E & G). inversion E as [E']. rewrite <- E' in G. congruence.
+Qed.
+
+(** the register found starts at the address, lies in the space and is at least one byte wide *)
+Lemma txt_register_at_in regs off r : txt_register_at regs off = Some r ->
+  In r regs /\ g_off r = off /\ 0 <= g_off r /\ 0 < txt_width r.
+Proof.
+  induction regs as [|a t IH]; cbn [txt_register_at]; [discriminate|].
+  destruct (g_off a <? 0) eqn:N; [discriminate|]. apply Z.ltb_ge in N.
+  destruct ((off <? g_off a) || (g_off a + txt_width a <=? off)) eqn:C.
+  - intros E. destruct (IH E) as (I & R). split; [right; exact I | exact R].
+  - apply orb_false_iff in C. destruct C as (C1 & C2). apply Z.ltb_ge in C1. apply Z.leb_gt in C2.
+    destruct (off =? g_off a) eqn:A; [|discriminate]. apply Z.eqb_eq in A.
+    intros E. inversion E; subst. split; [left; reflexivity|]. split; [reflexivity|]. lia.
+Qed.
+
+Section TxtLoop.
+  Variable regs : list reg.
+  Variable off : Z.
+  (** [P a b]: byte [b] is what address [a] may deliver *)
+  Variable P : Z -> Z -> Prop.
+  Hypothesis HP : forall a r k b, txt_register_at regs a = Some r ->
+    nth_error (g_val r) k = Some b -> P (a + Z.of_nat k) b.
+
+  Lemma txt_loop_spec : forall fuel p pos, 0 <= pos <= zlen p ->
+    (Z.to_nat (zlen p - pos) < fuel)%nat ->
+    exists rd, txt_loop fuel regs p pos off = Ok rd /\
+      pos <= rd_n rd <= zlen p /\ zlen (rd_p rd) = zlen p /\
+      firstn (Z.to_nat pos) (rd_p rd) = firstn (Z.to_nat pos) p /\
+      skipn (Z.to_nat (rd_n rd)) (rd_p rd) = skipn (Z.to_nat (rd_n rd)) p /\
+      (rd_err rd = 0 -> rd_n rd = zlen p /\ pos < zlen p) /\
+      (forall i, pos <= i < rd_n rd -> exists b, nth_error (rd_p rd) (Z.to_nat i) = Some b /\ P (off + i) b).
+  Proof.
+    induction fuel as [|k IH]; intros p pos Pp Fu; [lia|]. cbn [txt_loop].
+    destruct (txt_register_at regs (off + pos)) as [r|] eqn:R.
+    2:{ eexists. split; [reflexivity|]. cbn [rd_n rd_p rd_err]. repeat split; lia. }
+    destruct (txt_register_at_in _ _ _ R) as (_ & _ & _ & Wr). unfold txt_width in Wr.
+    destruct (bwrite p pos (g_val r)) as [[p' pos'] e] eqn:W.
+    destruct (bwrite_spec p pos (g_val r) p' pos' e (proj1 Pp) W) as (N0 & N1 & L & Fp & Sp & _ & Nb).
+    specialize (N1 (proj2 Pp)).
+    destruct (bwrite_err p pos (g_val r) p' pos' e (proj1 Pp) W) as (E1 & E0).
+    (* what this round wrote *)
+    assert (Seg : forall i, pos <= i < pos' -> exists b, nth_error p' (Z.to_nat i) = Some b /\ P (off + i) b).
+    { intros i Hi. rewrite (bwrite_content p pos (g_val r) p' pos' e Pp W i Hi).
+      destruct (nth_error (g_val r) (Z.to_nat (i - pos))) as [b|] eqn:Nb'.
+      - exists b. split; [reflexivity|]. replace (off + i) with (off + pos + Z.of_nat (Z.to_nat (i - pos))) by lia.
+        eapply HP; [exact R | exact Nb'].
+      - apply nth_error_None in Nb'. unfold zlen in Nb. lia. }
+    destruct (negb (e =? 0) || (zlen p <=? pos')) eqn:T.
+    - eexists. split; [reflexivity|]. cbn [rd_n rd_p rd_err].
+      split; [lia|]. split; [exact L|]. split; [exact Fp|]. split; [exact Sp|]. split; [|exact Seg].
+      intros Z0. subst e. cbn [Z.eqb negb orb] in T. apply Z.leb_le in T.
+      destruct (E0 eq_refl) as (Q & _). split; lia.
+    - apply orb_false_iff in T. destruct T as (T1 & T2). apply negb_false_iff, Z.eqb_eq in T1.
+      apply Z.leb_gt in T2. destruct (E0 T1) as (Q & Q').
+      assert (Pp' : 0 <= pos' <= zlen p') by lia.
+      assert (Fu' : (Z.to_nat (zlen p' - pos') < k)%nat) by lia.
+      destruct (IH p' pos' Pp' Fu') as (rd & Er & Nn & Lr & Fr & Sr & Ee & Cr).
+      exists rd. split; [exact Er|]. split; [lia|]. split; [lia|]. split.
+      { rewrite <- Fp. apply (firstn_le_eq _ _ _ (Z.to_nat pos')); [lia | exact Fr]. }
+      split.
+      { rewrite Sr. replace (Z.to_nat (rd_n rd)) with (Z.to_nat pos' + Z.to_nat (rd_n rd - pos'))%nat by lia.
+        rewrite <- !skipn_skipn_add. rewrite Sp. reflexivity. }
+      split; [intros Z0; destruct (Ee Z0); split; lia|].
+      intros i Hi. destruct (Z_lt_ge_dec i pos') as [Lt|Ge].
+      + destruct (Seg i (conj (proj1 Hi) Lt)) as (b & Hb & Pb). exists b. split; [|exact Pb].
+        rewrite <- Hb. rewrite <- (nth_error_firstn_lt (rd_p rd) (Z.to_nat pos')) by lia.
+        rewrite Fr. apply nth_error_firstn_lt. lia.
+      + apply Cr. lia.
+  Qed.
+End TxtLoop.
+
+(** TXTPublic.ReadAt always returns (the loop ends: every round that goes on
+    has written at least one byte) and honours the positional-read contract of
+    io.ReaderAt: never more bytes than the buffer holds, the buffer keeps its
+    length and everything behind the n bytes reported is untouched, and n <
+    len(p) comes with an error -- a nil error means the WHOLE buffer was filled. *)
+Theorem txt_readat_positional : forall regs p off, exists rd,
+  txt_readat regs p off = Ok rd /\
+  0 <= rd_n rd <= zlen p /\ zlen (rd_p rd) = zlen p /\
+  skipn (Z.to_nat (rd_n rd)) (rd_p rd) = skipn (Z.to_nat (rd_n rd)) p /\
+  (rd_err rd = 0 -> rd_n rd = zlen p /\ 0 < zlen p).
+Proof.
+  intros regs p off. pose proof (zlen_nonneg p) as Lp.
+  destruct (txt_loop_spec regs off (fun _ _ => True) (fun _ _ _ _ _ _ => I) (S (length p)) p 0) as (rd & E & N & L & _ & S & Ee & _).
+  - lia.
+  - unfold zlen. lia.
+  - exists rd. split; [exact E|]. split; [exact N|]. split; [exact L|]. split; [exact S | exact Ee].
+Qed.
+
+(** a collection of TXT registers in which no two registers claim the same
+    address (a register may start exactly where another one ends) *)
+Definition regs_apart (a b : reg) : Prop :=
+  g_off a + txt_width a <= g_off b \/ g_off b + txt_width b <= g_off a.
+Definition TxtApart (regs : list reg) : Prop := ForallOrdPairs regs_apart regs.
+(** ... every register inside the space and at least one byte wide *)
+Definition reg_wf (r : reg) : Prop := 0 <= g_off r /\ 0 < txt_width r.
+Definition TxtWF (regs : list reg) : Prop := Forall reg_wf regs /\ TxtApart regs.
+
+(** every address of the register found belongs to that register *)
+Lemma txt_register_at_cover regs : TxtApart regs -> forall a r,
+  txt_register_at regs a = Some r -> forall x, a <= x < a + txt_width r -> txt_lookup regs x = Some r.
+Proof.
+  induction regs as [|h t IH]; intros D a r E x Hx; [discriminate|].
+  inversion D as [|? ? Dh Dt]; subst. cbn [txt_register_at txt_lookup] in *.
+  destruct (g_off h <? 0); [discriminate|].
+  destruct ((a <? g_off h) || (g_off h + txt_width h <=? a)) eqn:C.
+  - destruct (txt_register_at_in _ _ _ E) as (I & Ga & G0 & Gw).
+    assert (Ap : regs_apart h r) by (rewrite Forall_forall in Dh; apply Dh; exact I).
+    assert (S : (x <? g_off h) || (g_off h + txt_width h <=? x) = true).
+    { apply orb_true_iff. destruct Ap as [Ap|Ap]; [right; apply Z.leb_le; lia | left; apply Z.ltb_lt; lia]. }
+    rewrite S. exact (IH Dt a r E x Hx).
+  - apply orb_false_iff in C. destruct C as (C1 & C2). apply Z.ltb_ge in C1. apply Z.leb_gt in C2.
+    destruct (a =? g_off h) eqn:A; [|discriminate]. apply Z.eqb_eq in A. inversion E; subst r.
+    assert (S : (x <? g_off h) || (g_off h + txt_width h <=? x) = false).
+    { apply orb_false_iff. split; [apply Z.ltb_ge; lia | apply Z.leb_gt; lia]. }
+    rewrite S. reflexivity.
+Qed.
+
+(** Whatever TXTPublic.ReadAt reports as read is bytes of the sparse register
+    space: byte i of the buffer is the byte the space holds at off+i. *)
+Theorem txt_readat_space : forall regs p off rd, TxtApart regs ->
+  txt_readat regs p off = Ok rd ->
+  forall i, 0 <= i < rd_n rd ->
+  exists b, nth_error (rd_p rd) (Z.to_nat i) = Some b /\ txt_space regs (off + i) = Some b.
+Proof.
+  intros regs p off rd D E. pose proof (zlen_nonneg p) as Lp.
+  destruct (txt_loop_spec regs off (fun a b => txt_space regs a = Some b)) with (fuel := S (length p)) (p := p) (pos := 0)
+    as (rd' & E' & _ & _ & _ & _ & _ & C).
+  - intros a r k b R Nb. destruct (txt_register_at_in _ _ _ R) as (_ & Ga & _ & _).
+    assert (Kl : (k < length (g_val r))%nat) by (apply nth_error_Some; congruence).
+    unfold txt_space. rewrite (txt_register_at_cover regs D a r R) by (unfold txt_width, zlen; lia).
+    rewrite <- Nb. f_equal. lia.
+  - lia.
+  - unfold zlen. lia.
+  - unfold txt_readat in E. rewrite E in E'. inversion E'; subst rd'. exact C.
+Qed.
+
+(** A read across a gap -- some address of [off, off+len p) that no register
+    backs -- never succeeds with len(p) bytes: it reports a short count AND an
+    error. *)
+Theorem txt_readat_gap : forall regs p off rd, TxtApart regs ->
+  txt_readat regs p off = Ok rd ->
+  (exists i, 0 <= i < zlen p /\ txt_space regs (off + i) = None) ->
+  rd_n rd < zlen p /\ rd_err rd <> 0.
+Proof.
+  intros regs p off rd D E (i & Hi & G).
+  destruct (txt_readat_positional regs p off) as (rd' & E' & N & _ & _ & Ee).
+  rewrite E in E'. inversion E'; subst rd'.
+  assert (Lt : rd_n rd < zlen p).
+  { destruct (Z_lt_ge_dec i (rd_n rd)) as [Lt|Ge]; [|lia].
+    destruct (txt_readat_space regs p off rd D E i (conj (proj1 Hi) Lt)) as (b & _ & Sb). congruence. }
+  split; [exact Lt|]. intros Z0. destruct (Ee Z0). lia.
+Qed.
+
+(** *** every present register, every run of present registers is readable *)
+
+Lemma txt_register_at_present regs r : TxtWF regs -> In r regs -> txt_register_at regs (g_off r) = Some r.
 Proof.
   intros (W & D). induction regs as [|a t IH]; intros I; [inversion I|].
-  inversion W as [|? ? (A0 & A1 & A2) Wt]; subst. inversion D as [|? ? Da Dt]; subst.
-  cbn [txt_lookup]. destruct (g_off a <? 0) eqn:N; [apply Z.ltb_lt in N; lia|].
+  inversion W as [|? ? (A0 & A1) Wt]; subst. inversion D as [|? ? Da Dt]; subst.
+  cbn [txt_register_at]. destruct (g_off a <? 0) eqn:N; [apply Z.ltb_lt in N; lia|].
   destruct I as [->|I].
   - destruct (g_off r <? g_off r) eqn:E1; [apply Z.ltb_lt in E1; lia|].
-    destruct (g_off r + g_bits r / 8 <=? g_off r) eqn:E2; [apply Z.leb_le in E2; lia|]. reflexivity.
+    destruct (g_off r + txt_width r <=? g_off r) eqn:E2; [apply Z.leb_le in E2; lia|].
+    cbn [orb]. rewrite Z.eqb_refl. reflexivity.
   - assert (Wr : reg_wf r) by (rewrite Forall_forall in Wt; apply Wt; exact I).
-    destruct Wr as (R0 & R1 & R2).
+    destruct Wr as (R0 & R1).
     assert (Ap : regs_apart a r) by (rewrite Forall_forall in Da; apply Da; exact I).
-    assert (S : (g_off r <? g_off a) || (g_off a + g_bits a / 8 <=? g_off r) = true).
+    assert (S : (g_off r <? g_off a) || (g_off a + txt_width a <=? g_off r) = true).
     { apply orb_true_iff. destruct Ap as [Ap|Ap]; [right; apply Z.leb_le; lia | left; apply Z.ltb_lt; lia]. }
     rewrite S. apply IH; assumption.
 Qed.
 
-Lemma txt_readat_lookup regs p off r : txt_lookup regs off = Some r -> off = g_off r ->
-  txt_readat regs p off = Ok (let '(p', n, e) := bwrite p 0 (g_val r) in mkRd n p' e).
+(** a run of registers without gaps: each starts where the previous one ends *)
+Fixpoint chained (a : Z) (run : list reg) : Prop :=
+  match run with
+  | [] => True
+  | r :: t => g_off r = a /\ chained (a + txt_width r) t
+  end.
+Definition sum_tw (l : list reg) : Z := fold_right (fun r s => txt_width r + s) 0 l.
+
+Lemma sum_tw_nonneg l : 0 <= sum_tw l.
 Proof.
-  induction regs as [|a t IH]; intros L A; cbn [txt_lookup txt_readat] in *; [discriminate|].
-  destruct (g_off a <? 0); [discriminate|].
-  destruct ((off <? g_off a) || (g_off a + g_bits a / 8 <=? off)); [apply IH; assumption|].
-  inversion L; subst a. rewrite A, Z.eqb_refl. cbn [negb].
-  destruct (bwrite p 0 (g_val r)) as [[p' n] e]. reflexivity.
+  induction l as [|r t IH]; cbn [sum_tw fold_right]; [lia|]. fold (sum_tw t).
+  unfold txt_width. pose proof (zlen_nonneg (g_val r)). lia.
+Qed.
+
+Lemma txt_loop_run regs off : TxtWF regs -> forall run fuel p pos,
+  (forall r, In r run -> In r regs) -> run <> [] -> chained (off + pos) run ->
+  0 <= pos -> zlen p - pos = sum_tw run -> (Z.to_nat (zlen p - pos) < fuel)%nat ->
+  txt_loop fuel regs p pos off
+  = Ok (mkRd (zlen p) (firstn (Z.to_nat pos) p ++ concat (map g_val run)) 0).
+Proof.
+  intros W. induction run as [|r t IH]; intros fuel p pos Sub NE Ch P S Fu; [congruence|].
+  destruct fuel as [|k]; [lia|]. destruct Ch as (Go & Ch).
+  assert (Ir : In r regs) by (apply Sub; left; reflexivity).
+  assert (Wr : reg_wf r) by (destruct W as (W' & _); rewrite Forall_forall in W'; apply W'; exact Ir).
+  destruct Wr as (R0 & R1). cbn [sum_tw fold_right] in S. fold (sum_tw t) in S.
+  pose proof (sum_tw_nonneg t) as St. unfold txt_width in *.
+  cbn [txt_loop map concat]. rewrite <- Go. rewrite (txt_register_at_present regs r W Ir).
+  rewrite bwrite_room by lia.
+  replace (Z.min (zlen p - pos) (zlen (g_val r))) with (zlen (g_val r)) by lia.
+  rewrite Z.ltb_irrefl. rewrite (firstn_zall (g_val r)) by lia. cbn [Z.eqb negb orb].
+  destruct t as [|r2 t2].
+  - cbn [sum_tw fold_right] in S. cbn [map concat].
+    replace (zlen p <=? pos + zlen (g_val r)) with true by (symmetry; apply Z.leb_le; lia).
+    rewrite skipn_zall by lia. rewrite !app_nil_r. f_equal. f_equal. lia.
+  - assert (I2 : In r2 regs) by (apply Sub; right; left; reflexivity).
+    assert (W2 : reg_wf r2) by (destruct W as (W' & _); rewrite Forall_forall in W'; apply W'; exact I2).
+    destruct W2 as (_ & W2). unfold txt_width in W2.
+    assert (Pt : 0 < sum_tw (r2 :: t2)).
+    { cbn [sum_tw fold_right]. fold (sum_tw t2). pose proof (sum_tw_nonneg t2). unfold txt_width. lia. }
+    replace (zlen p <=? pos + zlen (g_val r)) with false by (symmetry; apply Z.leb_gt; lia).
+    set (p' := firstn (Z.to_nat pos) p ++ g_val r ++ skipn (Z.to_nat (pos + zlen (g_val r))) p).
+    assert (L' : zlen p' = zlen p).
+    { unfold p'. rewrite !zlen_app, zlen_firstn, zlen_skipn by lia. lia. }
+    rewrite (IH k p' (pos + zlen (g_val r))).
+    + rewrite L'. f_equal. f_equal.
+      assert (Fp : firstn (Z.to_nat (pos + zlen (g_val r))) p' = firstn (Z.to_nat pos) p ++ g_val r).
+      { unfold p'. rewrite app_assoc. apply firstn_app_l.
+        rewrite app_length, firstn_length. unfold zlen in *. lia. }
+      rewrite Fp. rewrite <- app_assoc. reflexivity.
+    + intros x Ix. apply Sub. right. exact Ix.
+    + discriminate.
+    + rewrite Z.add_assoc. exact Ch.
+    + lia.
+    + lia.
+    + lia.
+Qed.
+
+(** A read that starts at a present register and is as long as a run of present
+    registers without gaps delivers exactly their values, back to back, without
+    error -- whatever else the collection holds, in whatever order. *)
+Theorem txt_readat_run : forall regs run p off, TxtWF regs ->
+  (forall r, In r run -> In r regs) -> run <> [] -> chained off run -> zlen p = sum_tw run ->
+  txt_readat regs p off = Ok (mkRd (zlen p) (concat (map g_val run)) 0).
+Proof.
+  intros regs run p off W Sub NE Ch L. unfold txt_readat.
+  rewrite (txt_loop_run regs off W run (S (length p)) p 0 Sub NE); try lia.
+  - reflexivity.
+  - rewrite Z.add_0_r. exact Ch.
+  - unfold zlen. lia.
 Qed.
 
 (** Every present register is readable at its address, whatever its neighbours
-    are (a register may start exactly where another one ends): the read delivers
-    the first min(len p, width) bytes of the value; io.ErrShortWrite when the
-    buffer is shorter than the register, io.EOF when it is empty. *)
-Theorem txt_readat_register : forall regs r p, TxtWF regs -> In r regs ->
-  txt_readat regs p (g_off r) = Ok (let '(p', n, e) := bwrite p 0 (g_val r) in mkRd n p' e).
-Proof. intros regs r p W I. apply txt_readat_lookup; [apply txt_lookup_present; assumption | reflexivity]. Qed.
-
-(** ... in particular a buffer of exactly its width receives exactly its value, without error *)
+    and whatever its BitSize() says (TXT.PUBLIC.KEY: 256 bits, BitSize() = 0): a
+    buffer of exactly its width receives exactly its value, without error. *)
 Corollary txt_readat_register_exact : forall regs r, TxtWF regs -> In r regs ->
-  txt_readat regs (repeat 0 (Z.to_nat (g_bits r / 8))) (g_off r)
-  = Ok (mkRd (g_bits r / 8) (g_val r) 0).
+  txt_readat regs (repeat 0 (Z.to_nat (txt_width r))) (g_off r) = Ok (mkRd (txt_width r) (g_val r) 0).
 Proof.
-  intros regs r W I. rewrite txt_readat_register by assumption.
-  assert (Wr : reg_wf r) by (destruct W as (W & _); rewrite Forall_forall in W; apply W; exact I).
-  destruct Wr as (R0 & R1 & R2).
-  assert (Lp : zlen (repeat 0 (Z.to_nat (g_bits r / 8))) = g_bits r / 8) by (apply zlen_repeat; lia).
-  rewrite bwrite_room by lia. rewrite Lp, Z.sub_0_r, R2, Z.min_id, Z.add_0_l, Z.ltb_irrefl.
-  cbn [Z.to_nat firstn app]. rewrite <- R2 at 2. rewrite firstn_zall by lia.
-  rewrite skipn_zall by lia. rewrite app_nil_r. reflexivity.
+  intros regs r W I.
+  assert (Wr : reg_wf r) by (destruct W as (W' & _); rewrite Forall_forall in W'; apply W'; exact I).
+  destruct Wr as (R0 & R1).
+  assert (Lp : zlen (repeat 0 (Z.to_nat (txt_width r))) = txt_width r) by (apply zlen_repeat; lia).
+  rewrite (txt_readat_run regs [r] _ (g_off r) W).
+  - rewrite Lp. cbn [map concat]. rewrite app_nil_r. reflexivity.
+  - intros x [<-|[]]. exact I.
+  - discriminate.
+  - cbn [chained]. split; [reflexivity | trivial].
+  - rewrite Lp. cbn [sum_tw fold_right]. lia.
+Qed.
+
+(** ... and a buffer that is not longer than the register receives its first
+    len(p) bytes (io.ErrShortWrite when shorter, io.EOF when empty). *)
+Theorem txt_readat_register : forall regs r p, TxtWF regs -> In r regs -> zlen p <= txt_width r ->
+  txt_readat regs p (g_off r) = Ok (let '(p', n, e) := bwrite p 0 (g_val r) in mkRd n p' e).
+Proof.
+  intros regs r p W I Sh. unfold txt_readat. cbn [txt_loop]. rewrite Z.add_0_r.
+  rewrite (txt_register_at_present regs r W I).
+  destruct (bwrite p 0 (g_val r)) as [[p' pos'] e] eqn:Wb.
+  pose proof (zlen_nonneg p) as Lp. unfold txt_width in Sh.
+  destruct (Z_le_gt_dec (zlen p) 0) as [Z0|Z0].
+  - rewrite bwrite_full in Wb by exact Z0. inversion Wb; subst. reflexivity.
+  - rewrite bwrite_room in Wb by lia. inversion Wb; subst.
+    assert (T : (zlen p <=? Z.min (zlen p - 0) (zlen (g_val r))) = true) by (apply Z.leb_le; lia).
+    rewrite T, orb_true_r. reflexivity.
 Qed.
 
 (** ** Reference.RawBytes over an arbitrary artifact: what it returns *)
@@ -254,66 +492,146 @@ Section Sound.
   Qed.
 End Sound.
 
-(** *** TXT register file: a full read delivers a prefix of the register that starts there *)
+(** *** TXT register file: a full read delivers the bytes of the register space *)
 
 Definition txt_full (regs : list reg) (off len : Z) : list Z :=
-  match txt_lookup regs off with
-  | Some r => firstn (Z.to_nat len) (g_val r)
-  | None => []
-  end.
+  map (fun a => match txt_space regs a with Some b => b | None => 0 end) (seqZ off (Z.to_nat len)).
 
-Lemma txt_full_read regs len off rd : 0 <= len < W64 ->
+Lemma seqZ_length s n : length (seqZ s n) = n.
+Proof. revert s. induction n as [|n IH]; intros s; cbn [seqZ length]; [reflexivity | f_equal; apply IH]. Qed.
+Lemma seqZ_nth s n : forall i, (i < n)%nat -> nth_error (seqZ s n) i = Some (s + Z.of_nat i).
+Proof.
+  revert s. induction n as [|n IH]; intros s i H; [lia|]. destruct i as [|i]; cbn [seqZ nth_error].
+  - f_equal. lia.
+  - rewrite IH by lia. f_equal. lia.
+Qed.
+Lemma nth_error_ext {A} (l1 : list A) : forall l2, length l1 = length l2 ->
+  (forall i, (i < length l1)%nat -> nth_error l1 i = nth_error l2 i) -> l1 = l2.
+Proof.
+  induction l1 as [|a t IH]; intros [|b u] L H; cbn [length] in L; try discriminate; [reflexivity|].
+  assert (H0 := H 0%nat). cbn [nth_error length] in H0. assert (a = b) by (assert (Some a = Some b) by (apply H0; lia); congruence).
+  subst b. f_equal. apply IH; [lia|]. intros i Hi. apply (H (S i)). cbn [length]. lia.
+Qed.
+
+Lemma txt_full_read regs : TxtApart regs -> forall len off rd, 0 <= len < W64 ->
   txt_readat regs (repeat 0 (Z.to_nat len)) off = Ok rd -> rd_n rd = to_i64 len ->
   rd_p rd = txt_full regs off len.
 Proof.
-  intros L E N. set (p := repeat 0 (Z.to_nat len)) in *.
+  intros D len off rd L E N. set (p := repeat 0 (Z.to_nat len)) in *.
   assert (Lp : zlen p = len) by (apply zlen_repeat; lia).
-  destruct (txt_readat_positional regs p off rd E) as (N0 & Lp' & S & H).
-  destruct (Z_le_gt_dec (rd_n rd) 0) as [Z0|Pn].
-  - assert (Hn : rd_n rd = 0) by lia. assert (Hl : len = 0) by (apply to_i64_zero; [lia | congruence]).
-    assert (P0 : rd_p rd = []).
-    { destruct (rd_p rd) as [|b l]; [reflexivity|]. unfold zlen in *. cbn [length] in Lp'. lia. }
-    rewrite P0. unfold txt_full. rewrite Hl. destruct (txt_lookup regs off); reflexivity.
-  - apply Z.gt_lt in Pn. destruct (H Pn) as (r & Lk & A & Nm & Fi). unfold txt_full. rewrite Lk.
-    destruct (to_i64_nonneg len L) as (El & _); [lia|].
-    assert (rd_n rd = len) by congruence.
-    rewrite <- (firstn_zall (rd_p rd) (rd_n rd)) by lia. rewrite Fi. congruence.
+  destruct (txt_readat_positional regs p off) as (rd' & E' & N0 & Lp' & _).
+  rewrite E in E'. inversion E'; subst rd'.
+  destruct (to_i64_nonneg len L) as (El & _); [lia|].
+  assert (Nl : rd_n rd = len) by congruence.
+  apply nth_error_ext.
+  - unfold txt_full. rewrite map_length, seqZ_length. unfold zlen in *. lia.
+  - intros i Hi.
+    destruct (txt_readat_space regs p off rd D E (Z.of_nat i)) as (b & Hb & Sb); [unfold zlen in *; lia|].
+    rewrite Nat2Z.id in Hb. rewrite Hb. unfold txt_full.
+    rewrite nth_error_map, seqZ_nth by (unfold zlen in *; lia). cbn [option_map]. rewrite Sb. reflexivity.
 Qed.
 
 (** If a reference to a TXT register file has bytes, they are -- merged range by
-    merged range, through the address space -- prefixes of the values of the
-    registers that start at the resolved offsets: nothing but register content
-    is ever delivered. *)
-Theorem txt_bytes_sound : forall regs m rs bs, Forall okr rs ->
+    merged range, through the address space -- the bytes the sparse register
+    space holds at the resolved offsets: nothing but register content is ever
+    delivered. *)
+Theorem txt_bytes_sound : forall regs m rs bs, TxtApart regs -> Forall okr rs ->
   rawbytes_g (txt_readat regs) txt_size m rs = Ok bs ->
   bs = flat_map (fun mr => txt_full regs (to_i64 (roff mr)) (rlen mr))
                 (flat_map (mapped1 txt_size m) (ranges_sm rs)).
 Proof.
-  intros regs m rs bs O E.
-  exact (rawbytes_g_sound (txt_readat regs) txt_size m (txt_full regs) (txt_full_read regs) rs bs O E).
+  intros regs m rs bs D O E.
+  exact (rawbytes_g_sound (txt_readat regs) txt_size m (txt_full regs) (txt_full_read regs D) rs bs O E).
 Qed.
 
-(** A reference to exactly one present register (no address mapper) has the bytes
-    of that register -- whatever the register's neighbours are. *)
-Theorem txt_reference_one_register : forall regs r, TxtWF regs -> In r regs ->
-  g_off r + g_bits r / 8 < 9223372036854775808 ->
-  rawbytes_g (txt_readat regs) txt_size MNil [mkR (g_off r) (g_bits r / 8)] = Ok (g_val r).
+(** A reference whose ONE range covers a run of present registers without gaps
+    (what Reference.RawBytes makes of adjacent ranges) has the bytes of those
+    registers, back to back. *)
+Theorem txt_reference_run : forall regs run off, TxtWF regs ->
+  (forall r, In r run -> In r regs) -> run <> [] -> chained off run ->
+  0 <= off -> off + sum_tw run < 9223372036854775808 ->
+  rawbytes_g (txt_readat regs) txt_size MNil [mkR off (sum_tw run)] = Ok (concat (map g_val run)).
+Proof.
+  intros regs run off W Sub NE Ch O B. pose proof (sum_tw_nonneg run) as S0.
+  unfold rawbytes_g. change (ranges_sm [mkR off (sum_tw run)]) with [mkR off (sum_tw run)].
+  cbn [total_len fold_left read_ranges_g resolve1 read_mapped_g roff rlen].
+  assert (Wl : wrap64 (0 + sum_tw run) = sum_tw run).
+  { rewrite wrap64_mod. apply Z.mod_small. unfold W64. lia. }
+  rewrite Wl. rewrite Z.ltb_irrefl.
+  destruct (sum_tw run <? 0) eqn:E0; [apply Z.ltb_lt in E0; lia|]. cbn [orb].
+  assert (To : to_i64 off = off).
+  { unfold to_i64. destruct (off <? 9223372036854775808) eqn:E; [reflexivity | apply Z.ltb_ge in E; lia]. }
+  assert (Tl : to_i64 (sum_tw run) = sum_tw run).
+  { unfold to_i64. destruct (sum_tw run <? 9223372036854775808) eqn:E; [reflexivity | apply Z.ltb_ge in E; lia]. }
+  rewrite To, Tl.
+  assert (Lp : zlen (repeat 0 (Z.to_nat (sum_tw run))) = sum_tw run) by (apply zlen_repeat; lia).
+  rewrite (txt_readat_run regs run _ off W Sub NE Ch) by exact Lp. cbn [rd_n rd_p].
+  rewrite Lp, Z.eqb_refl. reflexivity.
+Qed.
+
+(** A reference to exactly one present register has the bytes of that register. *)
+Corollary txt_reference_one_register : forall regs r, TxtWF regs -> In r regs ->
+  g_off r + txt_width r < 9223372036854775808 ->
+  rawbytes_g (txt_readat regs) txt_size MNil [mkR (g_off r) (txt_width r)] = Ok (g_val r).
 Proof.
   intros regs r W I B.
   assert (Wr : reg_wf r) by (destruct W as (W' & _); rewrite Forall_forall in W'; apply W'; exact I).
-  destruct Wr as (R0 & R1 & R2).
-  unfold rawbytes_g. change (ranges_sm [mkR (g_off r) (g_bits r / 8)]) with [mkR (g_off r) (g_bits r / 8)].
-  cbn [total_len fold_left read_ranges_g resolve1 read_mapped_g roff rlen].
-  assert (Wl : wrap64 (0 + g_bits r / 8) = g_bits r / 8).
-  { rewrite wrap64_mod. apply Z.mod_small. unfold W64. lia. }
-  rewrite Wl. rewrite Z.ltb_irrefl.
-  destruct (g_bits r / 8 <? 0) eqn:E0; [apply Z.ltb_lt in E0; lia|]. cbn [orb].
-  assert (To : to_i64 (g_off r) = g_off r).
-  { unfold to_i64. destruct (g_off r <? 9223372036854775808) eqn:E; [reflexivity | apply Z.ltb_ge in E; lia]. }
-  assert (Tl : to_i64 (g_bits r / 8) = g_bits r / 8).
-  { unfold to_i64. destruct (g_bits r / 8 <? 9223372036854775808) eqn:E; [reflexivity | apply Z.ltb_ge in E; lia]. }
-  rewrite To, Tl. rewrite txt_readat_register_exact by assumption. cbn [rd_n rd_p].
-  rewrite Z.eqb_refl. reflexivity.
+  destruct Wr as (R0 & R1).
+  replace (txt_width r) with (sum_tw [r]) by (cbn [sum_tw fold_right]; lia).
+  rewrite (txt_reference_run regs [r] (g_off r) W).
+  - cbn [map concat]. apply f_equal, app_nil_r.
+  - intros x [<-|[]]. exact I.
+  - discriminate.
+  - cbn [chained]. split; [reflexivity | trivial].
+  - exact R0.
+  - cbn [sum_tw fold_right]. lia.
+Qed.
+
+(** two adjacent ranges, in either order, are one range after Ranges.SortAndMerge *)
+Lemma ranges_sm_neighbours a b : 0 <= roff a -> 0 < rlen a -> 0 <= rlen b ->
+  roff b = roff a + rlen a -> roff a + rlen a + rlen b < W64 ->
+  ranges_sm [a; b] = [mkR (roff a) (rlen a + rlen b)] /\ ranges_sm [b; a] = [mkR (roff a) (rlen a + rlen b)].
+Proof.
+  intros A0 A1 B0 Nb Bd.
+  assert (Ws : forall z, 0 <= z < W64 -> wrap64 z = z) by (intros z Hz; rewrite wrap64_mod; apply Z.mod_small; exact Hz).
+  assert (M : merge_ranges [a; b] = [mkR (roff a) (rlen a + rlen b)]).
+  { cbn [merge_ranges merge_go]. unfold rend. rewrite (Ws (roff a + rlen a)) by lia.
+    replace (roff b <=? roff a + rlen a) with true by (symmetry; apply Z.leb_le; lia).
+    rewrite (Ws (roff b + rlen b)) by lia. f_equal. f_equal. rewrite Ws by lia. lia. }
+  unfold ranges_sm, sort_off. cbn [fold_right ins_off].
+  replace (roff a <=? roff b) with true by (symmetry; apply Z.leb_le; lia).
+  replace (roff b <=? roff a) with false by (symmetry; apply Z.leb_gt; lia).
+  split; exact M.
+Qed.
+
+(** ONE reference naming two present registers that are neighbours in the
+    register space -- two ranges, in either order -- has the bytes of the lower
+    one followed by the bytes of the upper one (the former finding
+    C11-TXTPublic-neighbouring-registers-one-reference, repaired in /repo
+    9b9036f). *)
+Theorem txt_reference_neighbours : forall regs r1 r2, TxtWF regs -> In r1 regs -> In r2 regs ->
+  g_off r2 = g_off r1 + txt_width r1 -> g_off r2 + txt_width r2 < 9223372036854775808 ->
+  rawbytes_g (txt_readat regs) txt_size MNil [mkR (g_off r1) (txt_width r1); mkR (g_off r2) (txt_width r2)]
+    = Ok (g_val r1 ++ g_val r2) /\
+  rawbytes_g (txt_readat regs) txt_size MNil [mkR (g_off r2) (txt_width r2); mkR (g_off r1) (txt_width r1)]
+    = Ok (g_val r1 ++ g_val r2).
+Proof.
+  intros regs r1 r2 W I1 I2 Nb B.
+  assert (W1 : reg_wf r1) by (destruct W as (W' & _); rewrite Forall_forall in W'; apply W'; exact I1).
+  assert (W2 : reg_wf r2) by (destruct W as (W' & _); rewrite Forall_forall in W'; apply W'; exact I2).
+  destruct W1 as (A0 & A1). destruct W2 as (B0 & B1).
+  destruct (ranges_sm_neighbours (mkR (g_off r1) (txt_width r1)) (mkR (g_off r2) (txt_width r2))) as (S1 & S2);
+    cbn [roff rlen]; try (unfold W64; lia).
+  assert (G : rawbytes_g (txt_readat regs) txt_size MNil [mkR (g_off r1) (sum_tw [r1; r2])] = Ok (concat (map g_val [r1; r2]))).
+  { apply txt_reference_run; try assumption.
+    - intros x [<-|[<-|[]]]; assumption.
+    - discriminate.
+    - cbn [chained]. split; [reflexivity|]. split; [exact Nb | trivial].
+    - cbn [sum_tw fold_right]. lia. }
+  cbn [sum_tw fold_right map concat] in G. rewrite Z.add_0_r, app_nil_r in G.
+  unfold rawbytes_g in *. cbn [roff rlen] in S1, S2. rewrite S1, S2.
+  change (ranges_sm [mkR (g_off r1) (txt_width r1 + txt_width r2)]) with [mkR (g_off r1) (txt_width r1 + txt_width r2)] in G.
+  split; exact G.
 Qed.
 
 (** ** AMDRegisters.ReadAt *)
